@@ -10,6 +10,7 @@ import Driver.Common
   ops (same lines as harness/cmd/drive_broker + lifecycle.go):
     new k=v…             zl=0|1 (zero-length client id allowed)
     conn <c> <cid> v=N   = rawconn + burst C:<cid>:<v>
+    release   lcev   lstop release=1     (a SUBSCRIBE to lc/hold keeps its handler inside a hook until `release`)
     rawconn <c> v=N noread=1
     burst <c> <tok>…     par <c>:<tok>+… …     ping <c>     disc <c>     close <c> / lclose <c>
     sleep <ms>           (≥ 5000: the CONNECT timeout of every connection still waiting for CONNECT fires)
@@ -33,6 +34,7 @@ structure OConn where
   writes : Nat := 0              -- packets the broker has written to the socket
   pend : List String := []       -- tokens of the packets in wire ++ inq
   awaited : Bool := false
+  held : Bool := false           -- its handler is inside the OnSubscribe hook (SUBSCRIBE to lc/hold) until `release`
 
 structure O where
   fix : Fixes := Fixes.all
@@ -41,6 +43,7 @@ structure O where
   conns : List OConn := []
   subs : List (String × String) := []   -- (client id, topic)
   stopped : Bool := false
+  evs : List String := []               -- hook events: enter:<cid> exit:<cid> closed:<cid> onstop
 
 def kv (ws : List String) : List (String × String) :=
   ws.filterMap fun w => match w.splitOn "=" with
@@ -112,6 +115,8 @@ def stepConn (o : O) (i : Nat) : Option O :=
     let rec go : List Act → Option O
       | [] => none
       | a :: rest =>
+        -- a handler held in a hook is a handler that is slow: it has taken its packet and does not get on
+        if c.held && (a == .hWrite || a == .hWriteSkip) then go rest else
         match step cfg c.st a with
         | none => go rest
         | some t =>
@@ -136,6 +141,8 @@ def stepConn (o : O) (i : Nat) : Option O :=
             let tok := c.pend.headD ""
             let o1 := setConn o i { c with st := t, pend := c.pend.drop 1 }
             match tok.splitOn ":" with
+            | ["SUB", _, "lc/hold"] =>
+              some { (setConn o i { c with st := t, pend := c.pend.drop 1, held := true }) with evs := o.evs ++ [s!"enter:{c.cid}"] }
             | ["SUB", _, topic] => some { o1 with subs := (c.cid, topic) :: o1.subs }
             | ["PUB0", topic] => some (route o1 topic)
             | ["PUB1", _, topic] => some (route o1 topic)
@@ -147,7 +154,9 @@ def stepConn (o : O) (i : Nat) : Option O :=
           | .wWriteOk => some (setConn o i { c with st := t, writes := c.writes + 1 })
           | .sUnreg =>
             let o1 := setConn o i { c with st := t }
-            if c.st.status then some { o1 with subs := o1.subs.filter (fun s => s.1 != c.cid) } else some o1
+            if c.st.status then
+              some { o1 with subs := o1.subs.filter (fun s => s.1 != c.cid), evs := o1.evs ++ [s!"closed:{c.cid}"] }
+            else some o1
           | _ => some (setConn o i { c with st := t })
     go prio
 
@@ -262,7 +271,20 @@ def parBursts (o : O) (specs : List String) : O :=
       (feed o name toks).1
     | [] => o) o
 
-def doStop (o : O) : O × String := Id.run do
+/-- `release`: the held handlers leave the hook; the SUBSCRIBE they were handling is stored -/
+def release (o : O) : O := Id.run do
+  let mut o := o
+  for i in [0:o.conns.length] do
+    match o.conns[i]? with
+    | some c =>
+      if c.held then
+        o := { (setConn o i { c with held := false }) with evs := o.evs ++ [s!"exit:{c.cid}"], subs := (c.cid, "lc/hold") :: o.subs }
+    | none => pure ()
+  return o
+
+def showEvs (o : O) : String := if o.evs.isEmpty then "-" else String.intercalate "," o.evs
+
+def doStop (o : O) (rel : Bool := false) : O × String := Id.run do
   -- Stop: listeners, then Close() on the connections it knows about, wait for their `closed`
   let mut o := o
   for i in [0:o.conns.length] do
@@ -272,8 +294,16 @@ def doStop (o : O) : O × String := Id.run do
         o := setConn o i { c with st := { c.st with srvClosed := true }, awaited := true }
     | none => pure ()
   o := quiesce o
+  let mut early := ""
+  if rel then
+    let done := o.conns.all (fun c => !c.awaited || c.st.closedCh)
+    let held := (o.conns.filter (fun c => c.st.h != .done && c.st.h != .notStarted)).length
+    early := s!" early={if done then 1 else 0} held={held}"
+    o := quiesce (release o)
   let ok := o.conns.all (fun c => !c.awaited || c.st.closedCh)
-  let res := if ok then "stopped unload=1 onstop=1" else "stop-timeout unload=0 onstop=0"
+  if ok then o := { o with evs := o.evs ++ ["onstop"] }
+  let res := (if ok then "stopped" else "stop-timeout") ++ early ++ (if ok then " unload=1 onstop=1" else " unload=0 onstop=0") ++
+    (if rel then " ev=" ++ showEvs o else "")
   return ({ o with stopped := true }, res)
 
 def step (o : O) (line : String) : O × String :=
@@ -325,6 +355,8 @@ def step (o : O) (line : String) : O × String :=
           return o
         finish o o1
       else finish o o
+    | "release", [] => finish o (release o)
+    | "lcev", [] => (o, s!"ev={showEvs o} subs={o.subs.eraseDups.length}")
     | "counts", [] => (o, s!"online={(o.conns.filter (·.st.registered)).length}")
     | "census", [] => (o, census o)
     | "lstop", [] =>
@@ -334,7 +366,7 @@ def step (o : O) (line : String) : O × String :=
       let o0 := match m.find? (·.1 == "burst") with
         | some (_, spec) => quiesce (parBursts o [spec])
         | none => o
-      let (o1, res) := doStop o0
+      let (o1, res) := doStop o0 (lookup m "release" "0" == "1")
       let (o2, ev) := events o o1 none
       (o2, res ++ " " ++ census o2 ++ " " ++ hangPrefix o2 ++ ev)
     | _, _ => (o, "bad-op")
